@@ -6,12 +6,10 @@ import (
 	"strings"
 	"time"
 
-	codectypes "github.com/cosmos/cosmos-sdk/codec/types"
 	sdk "github.com/cosmos/cosmos-sdk/types"
 	banktypes "github.com/cosmos/cosmos-sdk/x/bank/types"
 	govv1 "github.com/cosmos/cosmos-sdk/x/gov/types/v1"
 	govv1beta1 "github.com/cosmos/cosmos-sdk/x/gov/types/v1beta1"
-	"github.com/cosmos/gogoproto/proto"
 
 	skywaytypes "github.com/palomachain/paloma/v2/x/skyway/types"
 
@@ -24,62 +22,120 @@ import (
 // per content, signed by a user and delivered through ante; every validator votes yes with a
 // signed MsgVote; blocks until the voting period is over and the gov end-blocker executed it.
 func (x *runner) govReal(title string, contents ...govv1beta1.Content) error {
-	c := x.c
 	var msgs []sdk.Msg
 	for _, ct := range contents {
-		any, err := codectypes.NewAnyWithValue(ct.(proto.Message))
+		m, err := legacyMsg(ct)
 		if err != nil {
 			return err
 		}
-		msgs = append(msgs, govv1.NewMsgExecLegacyContent(any, chain.GovAuthority()))
+		msgs = append(msgs, m)
 	}
+	st, reason, err := x.govRound(title, govv1.OptionYes, msgs)
+	if err != nil {
+		return err
+	}
+	if st != govv1.StatusPassed {
+		return fmt.Errorf("proposal %q ended with status %s: %s", title, st, reason)
+	}
+	x.rec.Count("flow_gov_proposals_passed", 1)
+	return nil
+}
+
+// govRound: submit (signed, through ante), all validators vote `vote` (signed), blocks until the
+// gov end-blocker has tallied; returns the final status.
+func (x *runner) govRound(title string, vote govv1.VoteOption, msgs []sdk.Msg) (govv1.ProposalStatus, string, error) {
+	c := x.c
 	proposer := x.users[0]
 	sp, err := govv1.NewMsgSubmitProposal(msgs, sdk.NewCoins(sdk.NewInt64Coin(chain.Denom, 10_000)), proposer.Bech, "", title, "C15 flow: "+title, false)
 	if err != nil {
-		return err
+		return 0, "", err
 	}
 	x.syncHeight()
 	r := c.Deliver(proposer, sp)
 	if !r.OK() {
-		return fmt.Errorf("submit proposal: %s", r.Log)
+		return 0, "", fmt.Errorf("submit proposal: %s", r.Log)
 	}
 	pidStr, ok := chain.EventAttr(r.Events, "submit_proposal", "proposal_id")
 	if !ok {
-		return fmt.Errorf("no proposal id in events")
+		return 0, "", fmt.Errorf("no proposal id in events")
 	}
 	var pid uint64
 	fmt.Sscanf(pidStr, "%d", &pid)
 	for _, v := range x.vals {
-		if err := c.QueueTx(v.Acct, 0, govv1.NewMsgVote(v.Acct.Addr, pid, govv1.OptionYes, "")); err != nil {
-			return err
+		if err := c.QueueTx(v.Acct, 0, govv1.NewMsgVote(v.Acct.Addr, pid, vote, "")); err != nil {
+			return 0, "", err
 		}
 	}
 	br := c.NextBlock()
 	if br.Panic != "" || br.Err != nil {
-		return fmt.Errorf("vote block: %s %v", br.Panic, br.Err)
+		return 0, "", fmt.Errorf("vote block: %s %v", br.Panic, br.Err)
 	}
 	for i, tr := range br.Txs {
 		if !tr.OK() {
-			return fmt.Errorf("vote %d failed: %s", i, tr.Log)
+			return 0, "", fmt.Errorf("vote %d failed: %s", i, tr.Log)
 		}
 	}
 	for i := 0; i < 40; i++ {
 		p, err := c.App.GovKeeper.Proposals.Get(c.Ctx(), pid)
 		if err != nil {
-			return err
+			return 0, "", err
 		}
 		switch p.Status {
-		case govv1.StatusPassed:
-			x.rec.Count("flow_gov_proposals_passed", 1)
-			return nil
-		case govv1.StatusFailed, govv1.StatusRejected:
-			return fmt.Errorf("proposal %d ended with status %s: %s", pid, p.Status, p.FailedReason)
+		case govv1.StatusPassed, govv1.StatusFailed, govv1.StatusRejected:
+			return p.Status, p.FailedReason, nil
 		}
 		if br := c.Skip(1); br.Panic != "" || br.Err != nil {
+			return 0, "", fmt.Errorf("block: %s %v", br.Panic, br.Err)
+		}
+	}
+	return 0, "", fmt.Errorf("proposal %d did not finish", pid)
+}
+
+// govNotPassed: a real governance round whose contents configure NOTHING: either every validator
+// votes no (REJECTED), or everybody votes yes but a later message of the proposal fails (a bank
+// send of more than the gov account owns) so that gov drops the whole branch (FAILED). In both
+// cases gov already executed the contents once on a dropped cache context at submission.
+func (x *runner) govNotPassed(title string, laterMsgFails bool, contents ...govv1beta1.Content) error {
+	var msgs []sdk.Msg
+	for _, ct := range contents {
+		m, err := legacyMsg(ct)
+		if err != nil {
+			return err
+		}
+		msgs = append(msgs, m)
+	}
+	vote, want := govv1.OptionNo, govv1.StatusRejected
+	if laterMsgFails {
+		huge, _ := new(big.Int).SetString("1000000000000000000000000000000", 10)
+		msgs = append(msgs, &banktypes.MsgSend{FromAddress: chain.GovAuthority(), ToAddress: x.users[0].Bech,
+			Amount: sdk.NewCoins(sdk.NewCoin(chain.Denom, mustInt(huge)))})
+		vote, want = govv1.OptionYes, govv1.StatusFailed
+	}
+	x.rec.Op(map[string]any{"kind": "governance-not-passed", "title": title, "later_message_fails": laterMsgFails, "height": x.c.Height + 1})
+	st, reason, err := x.govRound(title, vote, msgs)
+	if err != nil {
+		return err
+	}
+	if st != want {
+		return fmt.Errorf("proposal %q ended with status %s (%s), wanted %s", title, st, reason, want)
+	}
+	x.rec.Count("flow_gov_proposals_not_passed", 1)
+	return nil
+}
+
+// roomBeforeBatch: with an empty outgoing pool, move on to the block after the next batch-building
+// block if fewer than n blocks are left before it (so that the transfers of the following phase can
+// be inspected and cancelled in the pool).
+func (x *runner) roomBeforeBatch(n int64) error {
+	if len(x.m.pending) != 0 || x.c.Height%50+n < 50 {
+		return nil
+	}
+	for x.c.Height%50 != 0 {
+		if br := x.c.Skip(1); br.Panic != "" || br.Err != nil {
 			return fmt.Errorf("block: %s %v", br.Panic, br.Err)
 		}
 	}
-	return fmt.Errorf("proposal %d did not finish", pid)
+	return nil
 }
 
 // runFlow: everything through the real ABCI path.
@@ -133,6 +189,20 @@ func runFlow(c fw.Case, p params, rec *fw.Recorder) {
 	e.m.bal[3][1] = keep
 	e.m.bal[0][1] = new(big.Int).Add(e.m.bal[0][1], give)
 
+	// --- a proposal that is voted down: 50 % tax with the plain sender exempt, seven times the limit
+	// per week with the limited senders exempt. Configures nothing.
+	d1t := taxCfg{set: true, num: bi(1), den: bi(2), rateStr: "1/2", exempt: map[int]bool{0: true}}
+	d1l := limCfg{set: true, limit: new(big.Int).Mul(limit, bi(7)), period: 2, exempt: map[int]bool{0: true, 1: true}}
+	if err := x.govNotPassed("voted down "+t.denom, false, e.taxContent(t, d1t.rateStr, d1t.exempt), e.limContent(t, d1l.limit, d1l.period, d1l.exempt)); err != nil {
+		fail("governance (voted down)", err)
+		return
+	}
+	t.decoyTax, t.decoyLim = &d1t, &d1l
+	if err := x.roomBeforeBatch(45); err != nil {
+		fail("blocks", err)
+		return
+	}
+
 	step := func() { x.n++ }
 	a1 := bi(int64(1000 + r.Intn(1000)))
 	a2 := bi(int64(100 + r.Intn(100)))
@@ -145,6 +215,15 @@ func runFlow(c fw.Case, p params, rec *fw.Recorder) {
 	step()
 	x.send(2, t, new(big.Int).Mul(limit, bi(5))) // limit-exempt, taxed: far above the limit
 	step()
+	// --- a proposal that passes the vote but whose last message fails: no tax at all, no limit
+	// period, the limit-exempt sender no longer exempt. Configures nothing.
+	d2t := taxCfg{set: true, num: bi(0), den: bi(1), rateStr: "0", exempt: map[int]bool{}}
+	d2l := limCfg{set: true, limit: bi(1), period: 0, exempt: map[int]bool{}}
+	if err := x.govNotPassed("later message fails "+t.denom, true, e.taxContent(t, d2t.rateStr, d2t.exempt), e.limContent(t, d2l.limit, d2l.period, d2l.exempt)); err != nil {
+		fail("governance (failed)", err)
+		return
+	}
+	t.decoyTax, t.decoyLim = &d2t, &d2l
 	used := new(big.Int).Add(new(big.Int).Add(a1, a2), a3)
 	rem := new(big.Int).Sub(limit, used)
 	x.send(0, t, new(big.Int).Add(rem, bi(1))) // one over: rejected by the real baseapp, usage must not move
@@ -206,6 +285,7 @@ func runFlow(c fw.Case, p params, rec *fw.Recorder) {
 		return
 	}
 	t.tax = taxCfg{set: true, num: n2, den: bi(100), rateStr: rate2, exempt: map[int]bool{}}
+	t.decoyTax = nil
 	x.cancel(0, ids[0]) // a1: refund must be what was paid under the OLD rate
 	step()
 	x.send(1, t, bi(3)) // user 1 lost the exemption; the window is still full -> rejected
